@@ -135,6 +135,32 @@ def r2(ctx, r):
             if bad:
                 r.instance()
                 r.fail(f, e, "datagram split", "%s: %s of a datagram payload — a datagram must be sent whole or not at all" % (short(f.name), bad))
+    # a queued datagram is never modified (merging or splitting queue elements changes datagram boundaries)
+    for f in (sd, fn(ctx, "flushListener"), fn(ctx, "writeClient"), fn(ctx, "closeNow")):
+        refs = set()
+        for e in f.stmts():
+            if e.node.get("k") == "decl":
+                for v in e.node["vars"]:
+                    i = strip_wrappers(v.get("init")) if v.get("init") else None
+                    if i is not None and i.get("k") in ("mcall", "opcall") and field_of(common.obj_of(i) if hasattr(common, "obj_of") else (i.get("obj") or (i.get("args") or [None])[0])) in (SESS + "::wq", LST + "::wq") and "&" in v["t"]:
+                        refs.add(v["n"])
+        for e in f.stmts():
+            n = e.node
+            if n.get("k") not in ("mcall", "opcall"):
+                continue
+            m = last(n.get("callee", ""))
+            if m not in access.MUTATORS or m in ("pop_front",):
+                continue
+            recv = n.get("obj") if n.get("k") == "mcall" else (n["args"][0] if n.get("memberop") and n["args"] else None)
+            if recv is None:
+                continue
+            via_elem = any(x.get("k") in ("mcall", "opcall") and last(x.get("callee", "")) in ("back", "front", "at", "operator[]") and
+                           field_of(x.get("obj") or (x.get("args") or [None])[0]) in (SESS + "::wq", LST + "::wq") for x in walk(recv))
+            via_ref = any(x.get("k") == "var" and x["n"] in refs for x in walk(recv))
+            if via_elem or via_ref:
+                r.instance()
+                r.fail(f, e, "queued datagram modified", "%s changes a datagram that is already queued (`%s`): queue elements are whole datagrams and may only be sent and popped — "
+                       "merging or trimming them changes datagram boundaries" % (short(f.name), show(n)[:90]))
     # would-block: the whole payload is queued
     qs = [e for e in sd.stmts() if (e.node.get("k") == "mcall" and last(e.node.get("callee", "")) in ("emplace_back", "push_back") and
                                     field_of(e.node.get("obj")) in (SESS + "::wq", LST + "::wq"))]
@@ -323,6 +349,19 @@ def r6(ctx, r):
                     ok = True
             r.expect(ok, f, e, "index value without session", "%s indexes `%s` which is not the id of a session inserted on the same path: the next datagram from that peer "
                      "dereferences a session that does not exist" % (short(f.name), v), okdesc="%s: indexed id is the inserted session's" % short(f.name))
+    # index entries are never overwritten (emplace/insert keep an existing entry; operator[] / insert_or_assign take it over)
+    for f in fb.in_file(FILE):
+        if not f.ok or f.cls != UDP:
+            continue
+        for (g, e, n, kind) in [(f, f.elem_for(n), n, access.classify(f, n)) for n in f.nodes.values() if n.get("k") == "member" and n["n"] == UDP + "::_peerIndex"]:
+            par = f.nodes.get(f.parent.get(n["id"]))
+            if par is None:
+                continue
+            m = last(par.get("callee", "")) if par.get("k") in ("mcall", "opcall") else ""
+            if m in ("operator[]", "insert_or_assign", "at") and kind in ("write", "rw"):
+                r.instance()
+                r.fail(f, e, "peer index overwritten", "%s writes the peer index with `%s`, which replaces an existing entry: a peer that already has a receiving session is re-routed to "
+                       "another session (and un-routed when that one closes)" % (short(f.name), show(f.nodes.get(f.parent.get(par["id"]), par))[:80]))
     cn = fn(ctx, "closeNow")
     vocab = Vocab(["client", "idx"])
 
